@@ -210,22 +210,24 @@ example : delivered (request { idsOnly := false, tables := some ["t1"] } true
 /-- `ev` is `ev0` as convertFn made it, possibly marked with a column-lookup error at commit time -/
 def FromEvent (ev ev0 : Event) : Prop := ev = ev0 ∨ ev = { ev0 with error := true }
 
-/-- every event anywhere in the streamer state comes from `convert` of some change -/
-def FromConvert (c : Cfg) (st : St) : Prop :=
-  ∀ ev, (ev ∈ st.pending ∨ ev ∈ st.groups.flatten) → ∃ ch ev0, convert c ch = some ev0 ∧ FromEvent ev ev0
+/-- every event anywhere in the streamer state comes from `convert` of a change in `S` -/
+def FromConvert (S : List Change) (c : Cfg) (st : St) : Prop :=
+  ∀ ev, (ev ∈ st.pending ∨ ev ∈ st.groups.flatten) →
+    ∃ ch ∈ S, ∃ ev0, convert c ch = some ev0 ∧ FromEvent ev ev0
 
-theorem preupdates_inv (c : Cfg) (st : St) (chs : List Change) (h : FromConvert c st) :
-    FromConvert c (preupdates c st chs) := by
+theorem preupdates_inv (S : List Change) (c : Cfg) (st : St) (chs : List Change) (hS : ∀ ch ∈ chs, ch ∈ S)
+    (h : FromConvert S c st) : FromConvert S c (preupdates c st chs) := by
   obtain ⟨p, g, dr⟩ := st
   rw [preupdates_eq]
   intro ev hev
   simp only [List.mem_append, List.mem_filterMap] at hev
-  rcases hev with (h1 | ⟨ch, _, hc⟩) | h2
+  rcases hev with (h1 | ⟨ch, hch, hc⟩) | h2
   · exact h ev (Or.inl h1)
-  · exact ⟨ch, ev, hc, Or.inl rfl⟩
+  · exact ⟨ch, hS ch hch, ev, hc, Or.inl rfl⟩
   · exact h ev (Or.inr h2)
 
-theorem commit_inv (c : Cfg) (st : St) (h : FromConvert c st) : FromConvert c (commit c st) := by
+theorem commit_inv (S : List Change) (c : Cfg) (st : St) (h : FromConvert S c st) :
+    FromConvert S c (commit c st) := by
   obtain ⟨p, g, dr⟩ := st
   unfold commit
   split
@@ -236,8 +238,8 @@ theorem commit_inv (c : Cfg) (st : St) (h : FromConvert c st) : FromConvert c (c
         List.append_nil, List.mem_append, List.mem_map] at hev
       rcases hev with h1 | ⟨e, he, rfl⟩
       · exact h ev (Or.inr h1)
-      · obtain ⟨ch, ev0, hc, hfe⟩ := h e (Or.inl he)
-        refine ⟨ch, ev0, hc, ?_⟩
+      · obtain ⟨ch, hch, ev0, hc, hfe⟩ := h e (Or.inl he)
+        refine ⟨ch, hch, ev0, hc, ?_⟩
         unfold markCols
         split
         · rcases hfe with rfl | rfl
@@ -248,41 +250,49 @@ theorem commit_inv (c : Cfg) (st : St) (h : FromConvert c st) : FromConvert c (c
       simp only [List.not_mem_nil, false_or] at hev
       exact h ev (Or.inr hev)
 
-theorem runAuto_inv (c : Cfg) (st : St) (stmts : List Stmt) (h : FromConvert c st) :
-    FromConvert c (runAuto c st stmts) := by
+theorem runAuto_inv (S : List Change) (c : Cfg) (st : St) (stmts : List Stmt)
+    (hS : ∀ s ∈ stmts, ∀ ch ∈ s.touched, ch ∈ S) (h : FromConvert S c st) :
+    FromConvert S c (runAuto c st stmts) := by
   induction stmts generalizing st with
   | nil => simpa [runAuto] using h
   | cons s rest ih =>
     unfold runAuto
     simp only
-    have h1 := preupdates_inv c st s.touched h
+    have h1 := preupdates_inv S c st s.touched (hS s (by simp)) h
+    have hS' : ∀ x ∈ rest, ∀ ch ∈ x.touched, ch ∈ S := fun x hx => hS x (by simp [hx])
     split
     · split
-      · exact ih _ (commit_inv c _ h1)
-      · exact ih _ h1
-    · exact ih _ h1
+      · exact ih _ hS' (commit_inv S c _ h1)
+      · exact ih _ hS' h1
+    · exact ih _ hS' h1
 
-theorem runTx_inv (c : Cfg) (st : St) (stmts : List Stmt) (h : FromConvert c st) :
-    FromConvert c (runTx c st stmts).1 := by
+theorem runTx_inv (S : List Change) (c : Cfg) (st : St) (stmts : List Stmt)
+    (hS : ∀ s ∈ stmts, ∀ ch ∈ s.touched, ch ∈ S) (h : FromConvert S c st) :
+    FromConvert S c (runTx c st stmts).1 := by
   induction stmts generalizing st with
   | nil => simpa [runTx] using h
   | cons s rest ih =>
     unfold runTx
     simp only
-    have h1 := preupdates_inv c st s.touched h
+    have h1 := preupdates_inv S c st s.touched (hS s (by simp)) h
     split
-    · exact ih _ h1
+    · exact ih _ (fun x hx => hS x (by simp [hx])) h1
     · exact h1
 
-theorem request_inv (c : Cfg) (tx : Bool) (stmts : List Stmt) : FromConvert c (request c tx stmts) := by
-  have h0 : FromConvert c {} := by intro ev hev; simp at hev
+theorem request_inv (c : Cfg) (tx : Bool) (stmts : List Stmt) :
+    FromConvert (stmts.flatMap (·.touched)) c (request c tx stmts) := by
+  have h0 : FromConvert (stmts.flatMap (·.touched)) c {} := by intro ev hev; simp at hev
+  have hS : ∀ s ∈ stmts, ∀ ch ∈ s.touched, ch ∈ stmts.flatMap (·.touched) := by
+    intro s hs ch hch
+    simp only [List.mem_flatMap]
+    exact ⟨s, hs, hch⟩
   unfold request
   cases tx
-  · simpa using runAuto_inv c {} stmts h0
+  · simpa using runAuto_inv _ c {} stmts hS h0
   · simp only [if_true]
-    have := runTx_inv c {} stmts h0
+    have := runTx_inv _ c {} stmts hS h0
     split
-    · exact commit_inv c _ this
+    · exact commit_inv _ c _ this
     · exact this
 
 /-- What `convertFn` puts into an event, for a change of a table the filter lets through: the
@@ -336,7 +346,7 @@ rows are never read in that mode). -/
 theorem ids_only_has_no_values (c : Cfg) (tx : Bool) (stmts : List Stmt) (hi : c.idsOnly = true) :
     ∀ ev ∈ delivered (request c tx stmts), ev.oldRow = none ∧ ev.newRow = none := by
   intro ev hev
-  obtain ⟨ch, ev0, hc, hfe⟩ := request_inv c tx stmts ev (Or.inr hev)
+  obtain ⟨ch, _, ev0, hc, hfe⟩ := request_inv c tx stmts ev (Or.inr hev)
   have := convert_idsOnly c ch ev0 hc hi
   rcases hfe with rfl | rfl
   · exact this
@@ -346,17 +356,19 @@ theorem ids_only_has_no_values (c : Cfg) (tx : Bool) (stmts : List Stmt) (hi : c
 theorem filter_only_matching_tables (c : Cfg) (tx : Bool) (stmts : List Stmt) (ts : List String)
     (hf : c.tables = some ts) : ∀ ev ∈ delivered (request c tx stmts), ev.table ∈ ts := by
   intro ev hev
-  obtain ⟨ch, ev0, hc, hfe⟩ := request_inv c tx stmts ev (Or.inr hev)
+  obtain ⟨ch, _, ev0, hc, hfe⟩ := request_inv c tx stmts ev (Or.inr hev)
   have := (convert_filter c ch ev0 hc).2 ts hf
   rcases hfe with rfl | rfl
   · exact this
   · exact this
 
-/-- every delivered event describes some row change SQLite reported, with exactly its operation,
+/-- every delivered event describes a row change SQLite reported DURING THIS REQUEST (one of the
+changes touched by its statements - committed or not: see the phantom witness), with exactly its operation,
 table, row ids and (outside row-ids-only mode) before/after rows; the only thing commit time can add
 is the error mark of a failed column lookup -/
 theorem delivered_events_describe_reported_changes (c : Cfg) (tx : Bool) (stmts : List Stmt) :
-    ∀ ev ∈ delivered (request c tx stmts), ∃ d ev0, convert c d = some ev0 ∧ FromEvent ev ev0 :=
+    ∀ ev ∈ delivered (request c tx stmts),
+      ∃ d ∈ stmts.flatMap (·.touched), ∃ ev0, convert c d = some ev0 ∧ FromEvent ev ev0 :=
   fun ev hev => request_inv c tx stmts ev (Or.inr hev)
 
 /-- … and a matching table's change is never filtered out -/
